@@ -25,7 +25,7 @@ RULE_TEXT = ('runs = deterministic sweep over every (phase step x position x fau
 REACH_PROBES = ['mode_act', 'action_with_output_transformation', 'case_elsewhere_than_start_directory', 'read_through_preprocessor', 'keep', 'no_keep', 'sandbox_created', 'no_sandbox', 'ended_by_fault_with_sandbox', 'ended_pass',
                 'cd_executed', 'env_executed', 'tmp_file_by_case', 'child_wrote_file', 'chmod_readonly',
                 'child_left_symlink', 'child_left_odd_entries', 'child_removed_cwd', 'cwd_deleted_when_execution_ends', 'result_observed_after_act', 'result_observed_before_act', 'double_fault', 'keep_after_failure',
-                'cwd_in_tmp_at_end'] + diskmode.PROBES
+                'cwd_in_tmp_at_end', 'empty_case'] + diskmode.PROBES
 
 PFX = casegen.PREFIX
 
@@ -144,6 +144,9 @@ def sweep_specs():
         specs.append((shape, 'PASS', keep, []))
         specs.append((shape, 'FAIL', keep, []))
         specs.append((shape, 'SKIP', keep, []))
+        # a case with nothing in it (and one with nothing but [conf]): executed in a sandbox like any other
+        specs.append(((0, 0, 0, 0, 0), 'PASS', keep, []))
+        specs.append(((1, 0, 0, 0, 0), 'FAIL', keep, []))
         for ident, step, kc in [s for s in sites if s[0] == 'act' or s[0].endswith('1')]:
             for kind in c01.KINDS[kc]:
                 specs.append((shape, 'FAIL', keep, [(ident, step, kind)]))
@@ -224,7 +227,10 @@ def make_plan(i, master, tier):
             if kind == 'raise_exc':
                 f['exc'] = g.choice(c01.EXCS)
             fl.append(f)
-        disturb(case, procs, g)
+        if sum(shape[1:]) == 0:
+            case['act'] = {'lines': []}  # (the empty case: no instruction anywhere, no action)
+        else:
+            disturb(case, procs, g)
         plan = c01._base_plan(seed, tier, case, status, False, fl, 'cli', procs, sweep=True,
                               knob=g.choice([1, 8192]))
     else:
@@ -417,6 +423,8 @@ def _probes(plan, hist):
     if (plan.get('launch') or {}).get('pp'):
         pr['read_through_preprocessor'] = 1
     pr['sandbox_created' if hist['n_sandboxes'] else 'no_sandbox'] = 1
+    if not any(plan['case'].get(ph) for ph in ('setup', 'before-assert', 'assert', 'cleanup')) and not (plan['case'].get('act') or {}).get('lines'):
+        pr['empty_case'] = 1
     expect, st, info = _model(plan, hist)
     hist['kinds'] = sorted(st['kinds'])
     if hist['n_sandboxes'] and hist['fired_all']:
